@@ -175,7 +175,7 @@ pub async fn clause_streams(rng: &mut Rng, out: &mut Out, stats: &mut serde_json
     let ctx = UidCtx { rows: vec![], rows_ent: 0, room: None };
     let mut inst = Inst::start(CL_MODEL).await;
     let seed_rows = |inst: &Inst| { let app = inst.app.clone(); async move {
-        for (nat, age) in [("en", 3), ("fr", 5), ("en", 7), ("probe", 9)] { app.mutate(&format!("mutate {{ agg.Person {{ nat: \"{}\" age: {} w: 1.5 ok: true b64: \"AAAA\" js: \"{{\\\"a\\\":1}}\" pets: [{{name:\"kiki\"}}] req: [{{name:\"r\"}}] }} }}", nat, age), None).await.unwrap(); } } };
+        for (nat, age) in [("en", 3), ("fr", 5), ("en", 7), ("probe", 9)] { setup_mutate(&app, &format!("mutate {{ agg.Person {{ nat: \"{}\" age: {} w: 1.5 ok: true b64: \"AAAA\" js: \"{{\\\"a\\\":1}}\" pets: [{{name:\"kiki\"}}] req: [{{name:\"r\"}}] }} }}", nat, age), None).await; } } };
     seed_rows(&inst).await;
     let f = |i: usize| ASel::Field(i, None);
     let mut directed: Vec<(AQuery, &str)> = vec![
@@ -202,7 +202,7 @@ pub async fn clause_streams(rng: &mut Rng, out: &mut Out, stats: &mut serde_json
         let text = q.text();
         let err = std::sync::Arc::new(Mutex::new(String::new()));
         let err2 = err.clone();
-        let o = call(async { let r = inst.app.query(&text, Some(q.parameters())).await; if let Err(e) = &r { *err2.lock().unwrap() = e.to_string().replace('\n', " ").chars().take(160).collect(); } r }).await;
+        let o = call_t(|| async { let r = inst.app.query(&text, Some(q.parameters())).await; if let Err(e) = &r { *err2.lock().unwrap() = e.to_string().replace('\n', " ").chars().take(160).collect(); } r }).await;
         let p = inst.probe(false).await as i64;
         verdicts[o as usize] += 1;
         for (j, b) in [q.sel.iter().any(|s| matches!(s, ASel::Agg(..))), !q.order.is_empty(), q.first.is_some(), q.skip.is_some(), !q.before.is_empty() || !q.after.is_empty(), !q.filters.is_empty(), q.search.is_some(), q.sel.iter().any(|s| matches!(s, ASel::Json(_))), !q.params.is_empty()].iter().enumerate() { if *b { clause_use[j] += 1; } }
@@ -214,7 +214,7 @@ pub async fn clause_streams(rng: &mut Rng, out: &mut Out, stats: &mut serde_json
     stats.insert("clause_use_agg_order_first_skip_paging_filter_search_json_params".into(), json!(clause_use));
 
     // ---- deletions by parameter
-    let known = { let r = inst.app.mutate_raw("mutate { agg.Pet { name: \"to delete\" } }", None).await.unwrap(); base64_encode(&r.mutate_entities[0].node_to_mutate.id) };
+    let known = { let r = setup_mutate(&inst.app, "mutate { agg.Pet { name: \"to delete\" } }", None).await; base64_encode(&r.mutate_entities[0].node_to_mutate.id) };
     let n_del = scale(120, 1500);
     for i in 0..n_del {
         if !inst.healthy { inst.close(); inst = Inst::start(CL_MODEL).await; }
